@@ -88,7 +88,7 @@ def ev_t(e):
 
 
 def seq_term(bk, evs, out, polls, err):
-    return "(%s, %s, %s, %s, %s)" % (
+    return "((%s, %s, %s, %s, %s) : seq_case)" % (
         bk, lst(["\n    " + ev_t(e) for e in evs]),
         lst(["(%s, %s)" % (natlit(i), zlit(v)) for i, v in out]),
         lst(["(%s, %s)" % (lst(["(%s, %s)" % (natlit(i), zlit(v)) for i, v in b]),
@@ -169,8 +169,10 @@ def gen_raw_ops(rng):
             marks[tid] = k
         elif k == "resume":
             paused = [i for i in range(ntr) if marks.get(i) == "pause"]
-            if paused and rng.random() < 0.85:
+            if paused and rng.random() < 0.9:
                 tid = rng.choice(paused)
+            elif rng.random() < 0.8:
+                continue
             if tid < ntr:
                 ops.append(("resume", tid, gen_run(rng, clock, tid, runs.get(tid, 1), 0, 6, shuffle)))
                 runs[tid] = runs.get(tid, 1) + 1
@@ -327,7 +329,7 @@ class Policy:
         else:
             w = []
             for tid, wk in backend.w.items():
-                if wk.proc == "running" and wk.mark is None:
+                if wk.proc == "running":
                     x = self.rng.random()
                     if x < 0.6:
                         w.append(["emit", tid, self.rng.randint(0, 3)])
@@ -363,7 +365,7 @@ def run_tuner_generic(case):
     cb = StoreResultsCallback()
     tuner = Tuner(trial_backend=b, scheduler=sch, stop_criterion=lambda status: b.npolls >= case["n_polls"],
                   n_workers=case["W"], sleep_time=0, callbacks=[cb], tuner_name="c02", suffix_tuner_name=False,
-                  save_tuner=False)
+                  save_tuner=False, max_failures=10 ** 6)
     crash = None
     with quiet():
         try:
@@ -425,7 +427,7 @@ def run_tuner_sim(case):
         cb = SimulatorCallback()
         tuner = Tuner(trial_backend=b, scheduler=sch, stop_criterion=lambda status: b.npolls >= case["n_polls"],
                       n_workers=case["W"], sleep_time=0, callbacks=[cb], tuner_name="c02", suffix_tuner_name=False,
-                      save_tuner=False)
+                      save_tuner=False, max_failures=10 ** 6)
         try:
             tuner.run()
         except Exception as e:  # noqa
@@ -516,6 +518,7 @@ def check_delivery(obs):
     if obs["rows"] != obs["out"]:
         bad.append(("results_log_differs_from_on_trial_result", dict(rows=obs["rows"][:10], out=obs["out"][:10])))
     seg, segs = {}, {}          # trial -> index of current run; (trial, run) -> delivered payloads
+    polls_since, gap_at_resume = {}, {}   # polls between the decision and the resume of a trial
     decided, completed, pending = {}, set(), []
     window_all = {int(tid): set(v) for tid, v in obs["window"].items()}
 
@@ -533,18 +536,22 @@ def check_delivery(obs):
             tid = ev[1]
             seg[tid] = seg.get(tid, -1) + 1
             segs[(tid, seg[tid])] = []
+            gap_at_resume[tid] = polls_since.get(tid) if decided.get(tid) else None
             decided[tid] = None
         elif ev[0] == "result":
             _, tid, v, dec = ev
             if decided.get(tid):
                 bad.append(("delivered_after_%s_decision_before_resume" % decided[tid].lower(), dict(trial=tid, payload=v)))
             if v in window_all.get(tid, ()):
-                bad.append(("LATE", dict(trial=tid, payload=v, run=seg[tid])))
+                bad.append(("LATE", dict(trial=tid, payload=v, run=seg[tid], polls_between_pause_and_resume=gap_at_resume.get(tid))))
             segs[(tid, seg[tid])].append(v)
             if dec != "CONTINUE":
                 decided[tid] = dec
+                polls_since[tid] = 0
         elif ev[0] == "poll":
             pending.extend(tid for tid, s in ev[1].items() if s == "Completed" and not decided.get(tid))
+            for tid in polls_since:
+                polls_since[tid] += 1
     for (tid, j), dl in segs.items():
         rep = obs["reported"][tid][j]
         if dl != rep[:len(dl)]:
@@ -564,9 +571,9 @@ def gen_tuner_case(rng, sim):
         dr = rng.choice([0.0, 0.05, 0.5])
         prm.update(delays=[dr, rng.choice([dr, dr + 0.05, dr + 1.0]), rng.choice([0.0, 0.05, 1.0]),
                            rng.choice([0.0, 0.05, 0.5]), rng.choice([0.0, 0.05, 0.5, 2.0])],
-                   sleep=rng.choice([0.1, 0.5, 1.0, 3.0]), gaps=rng.choice([[0.25, 0.5, 1.0], [0.05, 0.1], [1.0, 2.5]]))
+                   sleep=rng.choice([0.3, 1.0, 3.0]), gaps=rng.choice([[0.25, 0.5, 1.0], [0.05, 0.1], [1.0, 2.5]]))
     return dict(kind="tuner_sim" if sim else "tuner_generic", seed=rng.randrange(10 ** 9), W=rng.randint(1, 3),
-                n_polls=rng.randint(3, 10), params=prm, script=None)
+                n_polls=rng.randint(4, 14) if sim else rng.randint(3, 10), params=prm, script=None)
 
 
 def tuner_cases(ctx, replay, sim):
@@ -601,7 +608,10 @@ def tuner_cases(ctx, replay, sim):
             continue
         ctx.traces_validated += 1
         for event, detail in check_delivery(obs):
-            if event == "LATE":
+            if event == "LATE" and sim and detail["polls_between_pause_and_resume"] != 0:
+                sig = dict(backend=SIG_SIM_LATE["backend"], event="report_processed_in_stop_window_delivered_after_later_resume")
+                what = "%s: %s" % (sig["backend"], detail)
+            elif event == "LATE":
                 sig = dict(SIG_SIM_LATE if sim else SIG_GENERIC_LATE)
                 what = ("%s: trial %d got report %d, which its previous run wrote after the PAUSE decision and before the "
                         "worker was gone, delivered after resume_trial" % (sig["backend"], detail["trial"], detail["payload"]))
@@ -625,7 +635,14 @@ def tuner_cases(ctx, replay, sim):
 # D. tabular simulator: which results a resumed job replays
 # ----------------------------------------------------------------------------------------------
 def tabular_cases(ctx, replay):
+    import sys
     import numpy as np
+    # yahpo_gym is installed but does not import here (ConfigSpace binary vs numpy 2: ValueError, which
+    # blackbox_repository/repository.py does not catch); make it look "not installed" (ImportError is caught)
+    if "yahpo_gym" not in sys.modules:
+        sys.modules["yahpo_gym"] = None
+    with quiet():
+        import syne_tune.blackbox_repository  # noqa: F401
     from syne_tune.blackbox_repository.blackbox import Blackbox
     from syne_tune.blackbox_repository.simulated_tabular_backend import UserBlackboxBackend
     from syne_tune.backend.trial_status import Trial
@@ -674,7 +691,13 @@ def tabular_cases(ctx, replay):
                 with mock.patch.object(UserBlackboxBackend.__mro__[2], "_stop_or_pause_trial", lambda self, trial_id, status: None):
                     be.pause_trial(0, result={"epoch": paused} if case["with_result"] else None)
                 eff = paused if case["with_result"] else None
-            status, res = be._run_job_and_collect_results(0)
+            try:
+                status, res = be._run_job_and_collect_results(0)
+            except IndexError:
+                # nothing left to run (paused at the last level): the code indexes results[0]; no scheduler
+                # resumes such a trial; counted, compared as "no results"
+                res = []
+                ctx.h("tabular_empty_resume_indexerror", 1)
         impl = [(int(r["epoch"]), int(r["v"])) for r in res]
         allr = [(l, 100 + l) for l in levels]
         want = [r for r in allr if not (eff is not None and case["ckpt"]) or r[0] > eff]
@@ -684,7 +707,7 @@ def tabular_cases(ctx, replay):
             ctx.violation("property", "resumed tabular job replays %s, expected the levels above the paused level %s: %s" % (impl, eff, want),
                           case=case, signature=dict(backend="_BlackboxSimulatorBackend._run_job_and_collect_results",
                                                     event="resume_does_not_continue_after_paused_level"))
-        terms.append("(%s, %s, %s, %s)" % (blit(case["ckpt"]), "None" if eff is None else "(Some %s)" % zlit(eff),
+        terms.append("((%s, %s, %s, %s) : tab_case)" % (blit(case["ckpt"]), "None" if eff is None else "(Some %s)" % zlit(eff),
                                            lst(["(%s, %s)" % (zlit(a), zlit(b)) for a, b in allr]),
                                            lst(["(%s, %s)" % (zlit(a), zlit(b)) for a, b in impl])))
         meta.append(dict(case, impl=impl))
@@ -702,6 +725,13 @@ DIRECTED = [
          script=dict(suggest=[["start", [[1.0, 0], [2.0, 1]]], ["resume", 0, [[3.0, 100]]]],
                      decide=[["PAUSE", 1]],
                      world=[[], [["emit", 0, 1]], [["emit", 0, 1]]])),
+    # simulator: trial 0 reports at elapsed 1.0, 1.25, 3.0; PAUSE at the first report (simulated time 1.0); the stop
+    # signal needs delay_stop = 0.5, so the report of time 1.25 is processed inside the blocking pause_trial; the
+    # scheduler resumes trial 0 in the same loop iteration; the next poll returns that report
+    dict(kind="tuner_sim", seed=0, W=1, n_polls=4,
+         params=dict(lates=[0], delays=[0.0, 0.0, 0.0, 0.0, 0.5], sleep=1.0),
+         script=dict(suggest=[["start", [[1.0, 0], [1.25, 1], [3.0, 2]]], ["resume", 0, [[1.0, 100]]]],
+                     decide=[["PAUSE", 0]], world=[])),
 ]
 
 
